@@ -8,11 +8,13 @@ import (
 	"crypto/tls"
 	"crypto/x509"
 	"crypto/x509/pkix"
+	"encoding/json"
 	"errors"
 	"fmt"
 	"math/big"
 	"net"
 	"net/url"
+	"reflect"
 	"regexp"
 	"sort"
 	"strings"
@@ -66,7 +68,14 @@ func (l *capLogger) add(level, f string, a ...interface{}) {
 	// format first, lock afterwards: an argument whose String() never returns must wedge its own caller only
 	recs := []string{f}
 	for _, x := range a {
-		recs = append(recs, fmt.Sprintf("%v", x), fmt.Sprintf("%+v", x), fmt.Sprintf("%q", x))
+		recs = append(recs, fmt.Sprintf("%v", x), fmt.Sprintf("%+v", x), fmt.Sprintf("%q", x), fmt.Sprintf("%#v", x))
+		// a structured logger does not go through fmt's Stringer handling: it serialises the arguments as they are
+		if j, err := json.Marshal(x); err == nil {
+			recs = append(recs, string(j))
+		}
+		if rv := reflect.ValueOf(x); rv.Kind() == reflect.String {
+			recs = append(recs, rv.String())
+		}
 	}
 	text := fmt.Sprintf(f, a...)
 	l.mu.Lock()
